@@ -18,6 +18,9 @@ from .sym import Inapplicable, PathEnd
 
 Z3_TIMEOUT_MS = int(os.environ.get("VERIF_Z3_TIMEOUT_MS", "20000"))
 BRANCH_TIMEOUT_MS = 2000
+BRANCH_TIMEOUT_SHORT_MS = 300
+PATH_SOLVER_OPTIONS = dict(kv.split("=") for kv in os.environ.get("VERIF_PATH_SOLVER", "").split(",") if "=" in kv)
+PATH_SOLVER_OPTIONS = {k: (int(v) if v.lstrip("-").isdigit() else (v == "true" if v in ("true", "false") else v)) for k, v in PATH_SOLVER_OPTIONS.items()}
 MAX_PATHS = int(os.environ.get("VERIF_MAX_PATHS", "4000"))
 CVC5 = "/usr/bin/cvc5"
 
@@ -35,7 +38,7 @@ class VC:
 
 
 class Path:
-    def __init__(self, case, decisions, path_id, fsem="std"):
+    def __init__(self, case, decisions, path_id, fsem="std", solver_options=None):
         self.case = case
         self.decisions = list(decisions)      # replayed prefix
         self.taken = []                        # decisions actually taken (bool / int choice)
@@ -46,7 +49,10 @@ class Path:
         self.path_id = path_id
         self.solver = z3.Solver()
         self.solver.set("timeout", BRANCH_TIMEOUT_MS)
+        for k_, v_ in dict(PATH_SOLVER_OPTIONS, **(solver_options or {})).items():
+            self.solver.set(k_, v_)
         self._n = 0
+        self._short = False
         self.fsem = sym.FloatSem(fsem)
         self.float_facts = []
         self.ghost = {}
@@ -82,7 +88,13 @@ class Path:
     def _check(self, *extra):
         t0 = time.time()
         r = self.solver.check(*extra)
-        self.solver_time += time.time() - t0
+        dt = time.time() - t0
+        self.solver_time += dt
+        if r == z3.unknown and dt * 1000 >= BRANCH_TIMEOUT_MS * 0.9 and not self._short:
+            # the path solver struggles with this path condition (feasibility checks only prune;
+            # obligations are discharged separately): stop spending 2 s per check on this path
+            self._short = True
+            self.solver.set("timeout", BRANCH_TIMEOUT_SHORT_MS)
         return r
 
     def entails(self, t):
@@ -168,7 +180,7 @@ class CaseResult:
         self.truncated = False
 
 
-def explore(case_name, run, fsem="std", max_paths=None):
+def explore(case_name, run, fsem="std", max_paths=None, solver_options=None):
     """Run `run(path)` over all feasible paths.  `run` returns an outcome description."""
     res = CaseResult(case_name)
     work = [[]]
@@ -180,7 +192,7 @@ def explore(case_name, run, fsem="std", max_paths=None):
         if pid > limit:
             res.truncated = True
             break
-        p = Path(case_name, decisions, pid, fsem)
+        p = Path(case_name, decisions, pid, fsem, solver_options)
         sym.set_cur(p)
         try:
             out = run(p)
